@@ -382,6 +382,11 @@ func (u *Unit) loopHeapEffects(n ast.Node) (all bool, some map[string]bool) {
 			if tv, ok := u.info.Types[n.Fun]; ok && tv.IsType() {
 				return true
 			}
+			if len(u.counted) > 0 {
+				if _, ok := u.counted[strings.Join(strings.Fields(u.exprText(n.Fun)), "")]; ok {
+					some[u.ghostHeap("called")] = true
+				}
+			}
 			if id, ok := ast.Unparen(n.Fun).(*ast.Ident); ok {
 				if b, ok := u.info.Uses[id].(*types.Builtin); ok {
 					switch b.Name() {
@@ -1394,8 +1399,8 @@ func (u *Unit) frameGoals(st *State, only map[string]bool) []frameGoal {
 		if strings.HasPrefix(h, "HG_") && (!ghostFrame || h == "HG_ctxdone") {
 			continue
 		}
-		if strings.HasPrefix(h, "HL_") {
-			continue // derived from the map heaps, which are frame-checked themselves
+		if strings.HasPrefix(h, "HL_") || h == "HG_called" {
+			continue // derived from the map heaps, which are frame-checked themselves / the unit's own call counters
 		}
 		end := u.heapCur(st, h)
 		start := u.heapCur(u.entry, h)
@@ -1511,6 +1516,11 @@ func (u *Unit) havocLoop(st *State, body ast.Node, extra []*types.Var) {
 		for _, h := range sortedKeys(some) {
 			u.havocHeap(st, h)
 		}
+	}
+	if u.hasCountedCall(body) {
+		// the unit's own call counters change in this loop (havocHeap leaves them alone otherwise)
+		h := u.ghostHeap("called")
+		st.heaps[h] = u.c.fresh(h, u.c.heapNames[h])
 	}
 	// allocation counter only grows
 	na := u.c.fresh("alloc", "Int")
@@ -1686,6 +1696,7 @@ func (u *Unit) runLoop(st *State, lc *LoopContract, n int, label string, pos, bo
 		lctx.exitSites = exitSitesOf(havocNode, label)
 	}
 	u.loopStack = append(u.loopStack, lctx)
+	iterStart := in.clone() // for athead(...) in step clauses
 	after := body(in)
 	u.loopStack = u.loopStack[:len(u.loopStack)-1]
 	// continue states join the fallthrough before the post statement
@@ -1696,6 +1707,7 @@ func (u *Unit) runLoop(st *State, lc *LoopContract, n int, label string, pos, bo
 		// before the post statement with the locals of the body still in scope
 		senv := u.invEnv(back, bodyPos)
 		senv.scopePos = token.NoPos
+		senv.head = iterStart
 		for i, cl := range lc.Steps {
 			u.emit(back, "inv", fmt.Sprintf("loop-step#%d.%d", n, i), "at the end of every iteration of loop "+fmt.Sprint(n)+": "+cl.Text, pos, senv.evalBool(cl.Expr))
 		}
